@@ -19,14 +19,66 @@ RULE = ("one TransitSender + one TransitReceiver with the derived key; 1-3 addre
         "live connections. Non-trivial = at least 2 connections contended; distinct = (config, "
         "contenders, number of links, outcome, which path won).")
 ASSUMPTIONS = ["virtual time: the deadline clause is decided on the simulated clock"]
-FLOORS = {"quick": {"both_connected": 300, "no_path_cases": 40, "stranger_links": 200, "links": 1000},
-          "thorough": {"both_connected": 12000, "no_path_cases": 1500, "stranger_links": 8000, "links": 40000}}
+FLOORS = {"quick": {"both_connected": 300, "no_path_cases": 40, "stranger_links": 200, "links": 1000, "deadline_cases": 30},
+          "thorough": {"both_connected": 12000, "no_path_cases": 1500, "stranger_links": 8000, "links": 40000, "deadline_cases": 900}}
 ADDRS = ["10.0.0.1", "10.0.0.2", "10.0.0.3"]
 
 
 def cases(tier, seed, prep=None):
     n = 700 if tier == "quick" else 28000
-    return [{"seed": seed * 1000003 + 700000 + i, "nopath": i % 9 == 4} for i in range(n)]
+    out = [{"seed": seed * 1000003 + 700000 + i, "nopath": i % 9 == 4} for i in range(n)]
+    # nothing can be negotiated and the peer's hints name many relays with as many different priorities (each
+    # priority group is tried 2 s after the previous one): connect() must still fail by its deadline
+    for i in range(36 if tier == "quick" else 1000):
+        out.append({"kind": "deadline", "seed": seed * 1000003 + 760000 + i, "nrelays": [1, 3, 12, 29, 31, 45, 90, 200, 600][i % 9],
+                    "receiver": i % 2 == 0, "direct": i % 3 == 0})
+    return out
+
+
+def run_deadline(spec):
+    world = World(spec["seed"])
+    rng = world.work_rng
+    r = world.reactor
+    cls = transit.TransitReceiver if spec["receiver"] else transit.TransitSender
+    t = cls(None, no_listen=True, reactor=r)
+    t.set_transit_key(rng.randbytes(32))
+    hints_of(t)
+    hints = []
+    for i in range(spec["nrelays"]):
+        host = "10.7.%d.%d" % (i // 250, i % 250 + 1)
+        r.unroutable.add(host)
+        hints.append({"type": "relay-v1", "hints": [{"type": "direct-tcp-v1", "priority": float(i) / 4, "hostname": host, "port": 4001}]})
+    if spec["direct"]:
+        r.unroutable.add("10.8.8.8")
+        hints.append({"type": "direct-tcp-v1", "priority": 1.0, "hostname": "10.8.8.8", "port": 5000})
+    rng.shuffle(hints)
+    t.add_connection_hints(hints)
+    t0 = r.seconds()
+    res = Result(t.connect())
+    sch = Scheduler(world, None, strategy="random", chunking="whole")
+    done_at = []
+    sch.hook = lambda: done_at.append(r.seconds()) if (res.done and not done_at) else None
+    end = sch.drain(1500.0, 200000, until=lambda: res.done)
+    took = (done_at[0] if done_at else r.seconds()) - t0
+    deadline = 2 * transit.TIMEOUT
+    viol = []
+    wit = {"spec": spec, "took": took, "deadline": deadline, "done": res.done, "failure": repr(res.failure.value)[:120] if res.failure else None,
+           "timers_left": len(r.getDelayedCalls())}
+    if not res.done:
+        viol.append({"key": "C07/connect-hangs", "msg": "connect() still pending %.0f virtual s after it was called (%d relay priorities)" % (took, spec["nrelays"]), "witness": wit})
+    elif res.value is not None:
+        viol.append({"key": "C07/connected-to-nobody", "msg": repr(res.value)[:100], "witness": wit})
+    elif took > deadline + 1.0:
+        viol.append({"key": "C07/connect-fails-after-its-deadline", "msg": "connect() failed %.0f virtual s after it was called; the deadline is %d s (%d relay priorities in the peer's hints)" % (
+            took, deadline, spec["nrelays"]), "witness": wit})
+    sch.drain(5.0, 2000)
+    left = [c for c in r.getDelayedCalls()]
+    if res.done and left:
+        viol.append({"key": "C07/timers-left-after-connect-failed", "msg": "%d timers pending after connect() had failed" % len(left), "witness": wit})
+    world.finish()
+    return {"violations": viol, "nontrivial": ["deadline", spec["nrelays"], spec["receiver"], spec["direct"], spec["seed"]],
+            "counters": {"deadline_cases": 1, "no_path_cases": 1, "relay_priorities": spec["nrelays"]},
+            "sample": {"spec": spec, "took": took}}
 
 
 class Garbage(protocol.Protocol):
@@ -43,6 +95,8 @@ class Garbage(protocol.Protocol):
 
 
 def run_case(spec):
+    if spec.get("kind") == "deadline":
+        return run_deadline(spec)
     world = World(spec["seed"], relay=True)
     rng = world.work_rng
     r = world.reactor
